@@ -13,14 +13,14 @@ import (
 )
 
 type ReplayFile struct {
-	Property string  `json:"property"`
-	Engine   string  `json:"engine"`
-	Driver   string  `json:"driver"` // ops | sweep | loader
-	Seed     uint64  `json:"seed"`
-	Class    string  `json:"class"`
-	Detail   string  `json:"detail"`
-	Case     *Case   `json:"case,omitempty"`
-	LCase    *LCase  `json:"lcase,omitempty"`
+	Property string `json:"property"`
+	Engine   string `json:"engine"`
+	Driver   string `json:"driver"` // ops | sweep | loader
+	Seed     uint64 `json:"seed"`
+	Class    string `json:"class"`
+	Detail   string `json:"detail"`
+	Case     *Case  `json:"case,omitempty"`
+	LCase    *LCase `json:"lcase,omitempty"`
 }
 
 func hasClass(vs []V, class string) (V, bool) {
@@ -209,6 +209,20 @@ func worker(t *testing.T, c core.Cfg) {
 		}
 	}
 
+	// phase 0 (worker 0): every path-taking method of the wrapper, found by reflection
+	if c.Worker == 0 {
+		for _, v := range ReflectSweep(part.Counters) {
+			key := "reflect|" + v.Class
+			part.Counters.Inc("raw_violation_" + v.Class)
+			if seenClass[key] {
+				continue
+			}
+			seenClass[key] = true
+			p := writeReplay(c, ReplayFile{Property: c.Property, Engine: "chrootsim", Driver: "reflect", Class: v.Class, Detail: v.Detail})
+			part.Violations = append(part.Violations, core.ViolationRec{Class: "reflect/" + v.Class, Detail: v.Detail, Replay: p})
+		}
+	}
+
 	// phase 1: exhaustive path sweep (bounded by segments and by a share of the budget)
 	maxSeg := 4
 	if c.Tier == "thorough" {
@@ -299,7 +313,9 @@ func replay(c core.Cfg) int {
 		core.Fatal2("replay file: %v", err)
 	}
 	var vs []V
-	if rf.LCase != nil {
+	if rf.Driver == "reflect" {
+		vs = ReflectSweep(core.Counters{})
+	} else if rf.LCase != nil {
 		if rf.LCase.Faults == nil {
 			rf.LCase.Faults = map[string]string{}
 		}
@@ -352,9 +368,9 @@ func TestEngine(t *testing.T) {
 		"loader: one load of a generated project through loader.LoadSyslModuleWithSettings; cli: the same projects through the whole command line, sysl --root R pb ... MODULE); distinct_nontrivial = distinct (root, per-operation (kind, inside/outside, fault)) " +
 		"signatures of seeded sequences with >= 2 operations plus distinct loader trees"
 	extra := map[string]interface{}{
-		"simulated_time":  "none (no clock in the anchored code); faults are injected per inner call",
-		"components_real": []string{"syslutil.ChrootFs", "loader.ConfigureProject/LoadSyslModuleWithSettings", "cmd/sysl main2/main3/cmdRunner (driver cli)", "parse.Parser incl. import resolution", "golden-retriever remotefs/filesystem"},
-		"components_stub": []string{"disk (SimFs, with a populated area outside the root)"},
+		"simulated_time":     "none (no clock in the anchored code); faults are injected per inner call",
+		"components_real":    []string{"syslutil.ChrootFs", "loader.ConfigureProject/LoadSyslModuleWithSettings", "cmd/sysl main2/main3/cmdRunner (driver cli)", "parse.Parser incl. import resolution", "golden-retriever remotefs/filesystem"},
+		"components_stub":    []string{"disk (SimFs, with a populated area outside the root)"},
 		"sweep_max_segments": map[string]int{"quick": 4, "thorough": 7}[c.Tier],
 	}
 	code := core.Finish(c, "fault_enumeration", m, rule, extra, []string{
